@@ -5,6 +5,7 @@ const char *ntC03 = "non-trivial = saved file checked with the reference decoder
 CaseResult runC03(const Case &c, RunCtx &ctx) {
     CaseResult r;
     Interp in(ctx, "C03");
+    in.continueAfterConsistentDeviation = true;
     CountingListener L; in.L = &L;
     in.run(c);
     std::string why;
